@@ -46,6 +46,7 @@ from .mbox import Mailbox, NoSuchMailbox
 from .mh import MH
 from .parse import BadCommand, IMAPClientCommand
 from .trace import toggle_trace, trace
+from .utils import mbox_name_is_inside_maildir
 
 if TYPE_CHECKING:
     from _typeshed import StrPath
@@ -972,6 +973,11 @@ class IMAPUserServer:
         #
         if name.lower() == "inbox":
             name = "inbox"
+
+        # A mailbox name must not be able to reach outside of the maildir.
+        #
+        if not mbox_name_is_inside_maildir(name):
+            raise NoSuchMailbox(f"No such mailbox: '{name}'")
 
         # if not self.folder_exists(name):
         if not name.strip() or not self.folder_exists(name):
